@@ -135,8 +135,8 @@ func equalsV(fr *frame, t types.Type, x, y value) value {
 		return x == ys
 	case *value:
 		return x == y.(*value)
-	case chan value:
-		return x == y.(chan value)
+	case *schan:
+		return x == y.(*schan)
 	case structure:
 		y := y.(structure)
 		var tStruct *types.Struct
@@ -275,8 +275,8 @@ func writeValue(buf *bytes.Buffer, v value) {
 		}
 		buf.WriteString("]")
 
-	case chan value:
-		fmt.Fprintf(buf, "%v", v) // (an address)
+	case *schan:
+		fmt.Fprintf(buf, "chan %p", v)
 
 	case *value:
 		if v == nil {
